@@ -1013,7 +1013,7 @@ def main(tier, replay):
                 'different operators that were evaluated, plus distinct error-case texts and statement sequences.') % maxdepth
     chk.assumptions = [
         'reference = C int semantics as Spin gives Promela expressions; sub-expressions undefined in C (overflow, shift count <0 or >=31, '
-        'shift of a negative value) are never generated; values assigned stay inside the declared type (no byte/bool truncation is demanded)',
+        'left shift of a negative value) are never generated; >> of a negative value is an arithmetic shift; values assigned stay inside the declared type (no byte/bool truncation is demanded)',
         'no short-circuit is demanded or forbidden: value cases are fault-free in every sub-expression, injected faults never sit below the '
         'right operand of && / ||',
         'a bare undeclared name (reads as false by design, W3C test 277) and ++/-- through DataModel::eval (answered "not implemented") are not judged; '
